@@ -172,11 +172,12 @@ InitSwitch == \E fam \in {"bytes", "ustr"} : \E ch \in Chains : \E e \in BOOLEAN
 
 Init == /\ IF Part = "chain" THEN InitChain ELSE IF Part = "member" THEN InitMember
            ELSE IF Part = "strin" THEN InitStrin ELSE InitSwitch
-        /\ pc = "start" /\ k = 0 /\ log = <<>> /\ out = "pending"
+        /\ IF Part = "chain" THEN pc = "links" /\ k = 1 /\ log = <<0>>
+                            ELSE pc = "start" /\ k = 0 /\ log = <<>>
+        /\ out = "pending"
 
-(* ---- chain machine: k = number of operands evaluated so far ---- *)
-ChainFirst == /\ Part = "chain" /\ pc = "start"
-              /\ pc' = "links" /\ k' = 1 /\ log' = <<0>> /\ UNCHANGED <<c, out>>
+(* ---- chain machine: k = number of operands evaluated so far (the first operand is   *)
+(*      evaluated in the initial state: log = <<0>>, k = 1) ---- *)
 \* evaluate operand k+1, then link k
 ChainStep(r) == /\ k' = k + 1 /\ log' = Append(log, k) /\ UNCHANGED c
                 /\ IF Truthy(r) /\ k < Len(c.ops) THEN pc' = "links" /\ out' = out
@@ -190,26 +191,20 @@ ChainStopFalse == /\ Part = "chain" /\ pc = "links" /\ LET r == Link(c.ops, c.va
 ChainRaise == /\ Part = "chain" /\ pc = "links" /\ LET r == Link(c.ops, c.vals, k) IN
                     r \in Excs /\ ChainStep(r)
 
-(* ---- member machine: operands, hash, identity-or-equality scan ---- *)
-MemberEvalX == /\ Part = "member" /\ pc = "start"
-               /\ pc' = "members" /\ log' = <<0>> /\ UNCHANGED <<c, k, out>>
-MemberEvalM == /\ Part = "member" /\ pc = "members" /\ k < Len(c.ms)
-               /\ k' = k + 1 /\ log' = Append(log, k + 1) /\ UNCHANGED <<c, pc, out>>
-MemberHashFail == /\ Part = "member" /\ pc = "members" /\ k = Len(c.ms)
-                  /\ c.kind \in {"set", "dict"} /\ c.x = "U"
+(* ---- member machine: all operands left to right, hash (set/dict), then the scan: the   *)
+(*      first member that is the same object as x or equal to it decides ---- *)
+Hit(j) == c.ms[j] = c.x \/ Truthy(Rich(c.ms[j], "==", c.x))
+FirstHit == LET S == {j \in DOMAIN c.ms : Hit(j)} IN IF S = {} THEN 0 ELSE CHOOSE j \in S : \A i \in S : j <= i
+Unhashable == c.kind \in {"set", "dict"} /\ c.x = "U"
+MemberOperands == /\ Part = "member" /\ pc = "start"
+                  /\ pc' = "scan" /\ log' = [i \in 1..(Len(c.ms) + 1) |-> i - 1] /\ UNCHANGED <<c, k, out>>
+MemberHashFail == /\ Part = "member" /\ pc = "scan" /\ Unhashable
                   /\ pc' = "done" /\ out' = "E:TypeError" /\ UNCHANGED <<c, k, log>>
-MemberHashOk == /\ Part = "member" /\ pc = "members" /\ k = Len(c.ms)
-                /\ ~(c.kind \in {"set", "dict"} /\ c.x = "U")
-                /\ pc' = "scan" /\ k' = 1 /\ UNCHANGED <<c, log, out>>
-MemberHitIdentity == /\ Part = "member" /\ pc = "scan" /\ k <= Len(c.ms) /\ c.ms[k] = c.x
-                     /\ pc' = "done" /\ out' = B(~c.neg) /\ UNCHANGED <<c, k, log>>
-MemberHitEqual == /\ Part = "member" /\ pc = "scan" /\ k <= Len(c.ms) /\ c.ms[k] # c.x
-                  /\ Truthy(Rich(c.ms[k], "==", c.x))
-                  /\ pc' = "done" /\ out' = B(~c.neg) /\ UNCHANGED <<c, k, log>>
-MemberMiss == /\ Part = "member" /\ pc = "scan" /\ k <= Len(c.ms) /\ c.ms[k] # c.x
-              /\ ~Truthy(Rich(c.ms[k], "==", c.x))
-              /\ k' = k + 1 /\ UNCHANGED <<c, pc, log, out>>
-MemberExhausted == /\ Part = "member" /\ pc = "scan" /\ k > Len(c.ms)
+MemberHitIdentity == /\ Part = "member" /\ pc = "scan" /\ ~Unhashable /\ FirstHit # 0 /\ c.ms[FirstHit] = c.x
+                     /\ pc' = "done" /\ k' = FirstHit /\ out' = B(~c.neg) /\ UNCHANGED <<c, log>>
+MemberHitEqual == /\ Part = "member" /\ pc = "scan" /\ ~Unhashable /\ FirstHit # 0 /\ c.ms[FirstHit] # c.x
+                  /\ pc' = "done" /\ k' = FirstHit /\ out' = B(~c.neg) /\ UNCHANGED <<c, log>>
+MemberExhausted == /\ Part = "member" /\ pc = "scan" /\ ~Unhashable /\ FirstHit = 0
                    /\ pc' = "done" /\ out' = B(c.neg) /\ UNCHANGED <<c, k, log>>
 
 (* ---- strin, switch: one deciding step ---- *)
@@ -220,9 +215,8 @@ SwitchDecide == /\ Part = "switch" /\ pc = "start"
 
 Done == pc = "done" /\ UNCHANGED vars
 
-Next == \/ ChainFirst \/ ChainContinue \/ ChainLast \/ ChainStopFalse \/ ChainRaise
-        \/ MemberEvalX \/ MemberEvalM \/ MemberHashFail \/ MemberHashOk
-        \/ MemberHitIdentity \/ MemberHitEqual \/ MemberMiss \/ MemberExhausted
+Next == \/ ChainContinue \/ ChainLast \/ ChainStopFalse \/ ChainRaise
+        \/ MemberOperands \/ MemberHashFail \/ MemberHitIdentity \/ MemberHitEqual \/ MemberExhausted
         \/ StrinDecide \/ SwitchDecide \/ Done
 Spec == Init /\ [][Next]_vars
 
